@@ -4,7 +4,10 @@ use crate::push::item::Item;
 use crate::push::random::CodeGenerator;
 use crate::push::state::PushState;
 use crate::push::state::*;
+#[cfg(not(feature = "verif"))]
 use std::collections::HashMap;
+#[cfg(feature = "verif")]
+use crate::push::verif_seam::DetMap as HashMap;
 
 /// Integer numbers (that is, numbers without decimal points).
 pub fn load_int_instructions(map: &mut HashMap<String, Instruction>) {
